@@ -719,5 +719,262 @@ def main():
         json.dump(res, f, default=str)
 
 
+
+# ---------------------------------------------------------------------------
+# C08 magic-number coherence (finite domain, enumerated completely)
+
+
+def cmd_magics(args):
+    import re
+    import tempfile
+
+    acc = Acc()
+    from xdis import magics as M
+    from xdis.load import load_module
+    from xdis.disasm import get_opcode
+
+    # (1) mutual inverses on all 65536 magic integers / every known magic string
+    for m in range(65536):
+        acc.evaluations += 1
+        try:
+            b = M.int2magic(m)
+            back = M.magic2int(b)
+        except Exception as e:
+            acc.mismatch("C08|inverse|int2magic-raises:%s" % type(e).__name__, magic=m)
+            continue
+        if back != m:
+            acc.mismatch("C08|inverse|magic2int(int2magic(m))!=m", magic=m, got=back)
+    acc.count("c08_inverse_ints", 65536)
+    known_bytes = set(M.versions.keys()) | set(M.by_magic.keys()) | set(M.magics.values())
+    for b in sorted(known_bytes):
+        acc.evaluations += 1
+        acc.count("c08_inverse_bytes")
+        try:
+            if M.int2magic(M.magic2int(b)) != b:
+                acc.mismatch("C08|inverse|int2magic(magic2int(b))!=b", magic=C.hexs(b))
+        except Exception as e:
+            acc.mismatch("C08|inverse|raises:%s" % type(e).__name__, magic=C.hexs(b))
+
+    # (2) CPython registry rows
+    for rel, m in args["registry"]:
+        acc.evaluations += 1
+        acc.count("c08_registry_rows")
+        mm = re.match(r"^(\d)\.(\d+)", rel)
+        want = (int(mm.group(1)), int(mm.group(2)))
+        if m not in M.magicint2version:
+            acc.mismatch("C08|registry|unknown-magic|%d" % m, release=rel, magic=m)
+            continue
+        try:
+            got = M.magic_int2tuple(m)[:2]
+        except Exception as e:
+            acc.mismatch("C08|registry|magic_int2tuple-raises:%s|%d" % (type(e).__name__, m), release=rel, magic=m)
+            continue
+        if got != want:
+            acc.mismatch("C08|registry|wrong-version|%d" % m, release=rel, magic=m, got=list(got), want=list(want))
+        acc.distinct.add(sha(["reg", m]))
+
+    # (3) every magic xdis knows: version tuple, and "loads => opcode table"
+    tmpd = tempfile.mkdtemp(prefix="c08", dir=args["workdir"])
+    for m in sorted(M.magicint2version):
+        acc.evaluations += 1
+        acc.count("c08_known_magics")
+        try:
+            vt = M.magic_int2tuple(m)
+        except Exception as e:
+            acc.mismatch("C08|known-magic|magic_int2tuple-raises:%s|%d" % (type(e).__name__, m), magic=m,
+                         version=M.magicint2version[m])
+            continue
+        p = os.path.join(tmpd, "m%d.pyc" % m)
+        with open(p, "wb") as f:
+            f.write(M.int2magic(m) + b"\0" * 60)
+        try:
+            r = load_module(p, get_code=False)
+        except ImportError:
+            acc.count("c08_magic_refused_by_load_module")
+            os.unlink(p)
+            continue
+        except Exception as e:
+            # neither accepted nor cleanly refused: C11's business, not C08's
+            acc.count("c08_magic_refused_uncleanly:%s" % type(e).__name__)
+            os.unlink(p)
+            continue
+        os.unlink(p)
+        acc.count("c08_magic_accepted_by_load_module")
+        version_tuple, is_pypy = r[0], r[4]
+        try:
+            opc = get_opcode(version_tuple, is_pypy)
+            assert hasattr(opc, "opname") and len(opc.opname) >= 256
+        except Exception as e:
+            acc.mismatch("C08|loads-but-no-opcode-table|%s|%d" % (M.magicint2version[m], m), magic=m,
+                         version=list(version_tuple), is_pypy=is_pypy, err=type(e).__name__ + ": " + str(e)[:100])
+        acc.distinct.add(sha(["known", m]))
+    os.rmdir(tmpd)
+
+    # (4) release-name table
+    final = dict((tuple(k.split(".")), v) for k, v in args["final_magic"].items())
+    for name in sorted(M.magics):
+        acc.evaluations += 1
+        acc.count("c08_release_names")
+        mm = re.match(r"^(\d+)\.(\d+)(?:\.(\d+))?", name)
+        try:
+            t = M.py_str2tuple(name)
+        except Exception as e:
+            acc.mismatch("C08|release-name|py_str2tuple-raises:%s" % type(e).__name__, name=name)
+            continue
+        if not mm:
+            continue
+        want = (int(mm.group(1)), int(mm.group(2)))
+        if tuple(t[:2]) != want:
+            acc.mismatch("C08|release-name|py_str2tuple-wrong", name=name, got=list(t), want=list(want))
+        if mm.group(3) is not None and len(t) >= 3 and t[2] != int(mm.group(3)):
+            acc.mismatch("C08|release-name|py_str2tuple-wrong-micro", name=name, got=list(t))
+        # final releases X.Y.Z: magic must be the one that release really writes
+        if re.match(r"^\d+\.\d+\.\d+$", name):
+            key = (mm.group(1), mm.group(2))
+            fm = final.get(key)
+            if name in args["release_overrides"]:
+                fm = args["release_overrides"][name]
+            if fm is not None:
+                acc.count("c08_final_release_names")
+                got = M.magic2int(M.magics[name])
+                if got != fm:
+                    acc.mismatch("C08|release-name|wrong-magic|%s.%s" % key, name=name, got=got, want=fm)
+        acc.distinct.add(sha(["name", name]))
+
+    # (5) installed interpreters
+    for it in args["interpreters"]:
+        acc.evaluations += 1
+        acc.count("c08_installed_interpreters")
+        vi = tuple(it["version_info"])
+        try:
+            got = M.sysinfo2magic(vi)
+        except Exception as e:
+            acc.mismatch("C08|sysinfo2magic-raises:%s" % type(e).__name__, version_info=list(vi))
+            continue
+        if C.hexs(got) != it["magic"]:
+            acc.mismatch("C08|sysinfo2magic-wrong|%d.%d" % vi[:2], version_info=list(vi), got=C.hexs(got), want=it["magic"])
+        acc.sample({"interpreter": list(vi), "magic_written": it["magic"], "sysinfo2magic": C.hexs(got)})
+    return acc.result()
+
+
+CMDS["magics"] = cmd_magics
+
+
+
+# ---------------------------------------------------------------------------
+# C09 opcode tables: dump every table xdis can hand out
+
+
+def table_dump(opc):
+    d = {"version_tuple": list(getattr(opc, "version_tuple", ())), "is_pypy": bool(getattr(opc, "is_pypy", False)),
+         "module": opc.__name__}
+    d["opmap"] = dict(opc.opmap)
+    d["opname"] = list(opc.opname)
+    for k in ("HAVE_ARGUMENT", "EXTENDED_ARG", "EXTENDED_ARG_SHIFT"):
+        d[k] = getattr(opc, k, None)
+    for k in ("hasjrel", "hasjabs", "hasconst", "hasname", "haslocal", "hasfree", "hascompare", "hasnargs", "hasvargs",
+              "hasarg", "hasexc", "hasjump", "hasstore", "nofollow"):
+        v = getattr(opc, k, None)
+        d[k] = sorted(v) if v is not None else None
+    for k in ("JREL_OPS", "JABS_OPS", "CONST_OPS", "NAME_OPS", "LOCAL_OPS", "FREE_OPS", "COMPARE_OPS"):
+        v = getattr(opc, k, None)
+        d[k] = sorted(v) if v is not None else None
+    d["oppush"] = list(opc.oppush)
+    d["oppop"] = list(opc.oppop)
+    d["cmp_op"] = list(getattr(opc, "cmp_op", ()))
+    return d
+
+
+def cmd_tables(args):
+    from xdis.op_imports import op_imports, get_opcode_module
+    from xdis.disasm import get_opcode
+
+    out = {"tables": {}, "lookups": {}, "host": list(HOSTV)}
+    seen = {}
+    for key, mod in op_imports.items():
+        name = mod.__name__
+        if name not in seen:
+            seen[name] = table_dump(mod)
+        out["lookups"][str(key)] = name
+    out["tables"] = seen
+    # what get_opcode hands out for each reference version
+    out["get_opcode"] = {}
+    for v in args.get("versions", []):
+        try:
+            out["get_opcode"]["%d.%d" % tuple(v)] = get_opcode(tuple(v), False).__name__
+        except Exception as e:
+            out["get_opcode"]["%d.%d" % tuple(v)] = "raises:" + type(e).__name__
+    return out
+
+
+CMDS["tables"] = cmd_tables
+
+
+
+# ---------------------------------------------------------------------------
+# C15 stack effects
+
+
+def arg_class(a):
+    if a == 0:
+        return "0"
+    if a <= 3:
+        return "1-3"
+    if a <= 10:
+        return "4-10"
+    if a <= 255:
+        return "11-255"
+    if a <= 65535:
+        return "256-65535"
+    return ">65535"
+
+
+def cmd_stackeffect(args):
+    from xdis.cross_dis import xstack_effect
+    from xdis.disasm import get_opcode
+    from xdis.std import make_std_api
+
+    acc = Acc()
+    for tf in args["truth_files"]:
+        with open(tf) as f:
+            t = json.loads(f.readline())
+        V = tuple(t["version"][:2])
+        opc = get_opcode(V, False)
+        api = make_std_api(V)
+        native = None
+        if V == HOSTV and args.get("native"):
+            import xdis.std as native
+        argl = t["args"]
+        hasarg = set(t["hasarg"]) if t["hasarg"] else None
+        for ops, row in t["effects"].items():
+            op = int(ops)
+            name = t["opname"][op]
+            takes = (op in hasarg) if hasarg is not None else op >= t["HAVE_ARGUMENT"]
+            for a, want in zip(argl, row):
+                if want == "X":
+                    acc.count("c15_rejected_by_cpython")
+                    continue
+                acc.evaluations += 1
+                srcs = [("xstack_effect", lambda: xstack_effect(op, opc, a) if takes else xstack_effect(op, opc)),
+                        ("make_std_api", lambda: api.stack_effect(op, a) if takes else api.stack_effect(op))]
+                if native is not None:
+                    srcs.append(("std-native", lambda: native.stack_effect(op, a) if takes else native.stack_effect(op)))
+                for sname, fn in srcs:
+                    try:
+                        got = fn()
+                    except Exception as e:
+                        got = "raises:" + type(e).__name__
+                    if got != want:
+                        acc.mismatch("C15|v%s|%s|arg:%s|%s" % (vs(V), name, arg_class(a) if takes else "none", sname),
+                                     op=op, arg=a, expected=want, observed=got)
+                if takes:
+                    acc.distinct.add(sha([vs(V), op, a]))
+        acc.sample({"version": vs(V), "opcodes": len(t["effects"]), "operands_per_opcode": len(argl)})
+    return acc.result()
+
+
+CMDS["stackeffect"] = cmd_stackeffect
+
+
 if __name__ == "__main__":
     main()
